@@ -66,6 +66,7 @@ func (n nodeCtx) Value(key interface{}) interface{} { return n.node.valueSelf(ke
 
 func WithCancel(parent Context) (Context, CancelFunc) {
 	n := &node{parent: parent, done: vs.Make(make(chan struct{}))}
+	vs.RegisterObj(n)
 	pn := nearest(parent)
 	if pn == nil {
 		if parent.Done() != nil {
